@@ -33,7 +33,7 @@ def required_counters(tier):
     return {'monitor:contains:CirclePixelRegion': 10, 'monitor:contains:EllipsePixelRegion': 10,
             'monitor:contains:RectanglePixelRegion': 10, 'monitor:contains:PolygonPixelRegion': 10,
             'monitor:contains:CompoundPixelRegion': 10, 'monitor:contains:PointPixelRegion': 5,
-            'monitor:contains:LinePixelRegion': 5, 'in_operator': 10, 'history-steps': 50, 'sibling-regions': 10, 'answers-overwritten-then-asked-again': 20}
+            'monitor:contains:LinePixelRegion': 5, 'in_operator': 10, 'history-steps': 50, 'sibling-regions': 10, 'answers-overwritten-then-asked-again': 20, 'scalar-queries-on-vertex-rows': 100}
 
 
 def setup(obs):
@@ -257,6 +257,11 @@ def make_queries(region, q):
     return regions.PixCoord(x, y)
 
 
+def regions_pix(x, y):
+    import regions
+    return regions.PixCoord(x, y)
+
+
 def driver_extra(tier, seed, rundir):
     """thorough tier: the repository's own test-suite as an additional, organically shaped workload for the same monitor."""
     if tier != 'thorough':
@@ -322,6 +327,17 @@ def run_case(case, obs):
         res[...] = ~res
         obs.count('answers-overwritten-then-asked-again')
         res = region.contains(pc)      # judged again
+    if hasattr(region, 'vertices') and case['q']['rs'] % 4 == 1:
+        # single positions on the very row (and column) of a vertex: x or y bit-equal to a vertex coordinate, to its left / right / above
+        vx, vy = np.asarray(region.vertices.x, dtype=float), np.asarray(region.vertices.y, dtype=float)
+        cx_, cy_, L_ = region_scale(region)
+        nrng = np.random.default_rng(case['q']['rs'])
+        for k in nrng.permutation(len(vx))[:3]:
+            for sgn in (-1.0, 1.0):
+                d = sgn * float(nrng.uniform(0.03, 1.2)) * L_
+                region.contains(regions_pix(float(vx[k]) + d, float(vy[k])))        # each one judged by the monitor
+                region.contains(regions_pix(float(vx[k]), float(vy[k]) + d))
+                obs.count('scalar-queries-on-vertex-rows', 2)
     if case.get('history'):
         # mutate-then-requery on the same object: the monitor's oracle reads the live parameters
         import random
